@@ -835,4 +835,88 @@ theorem jfuel_le (S : List Instr) (pc : Nat) (os : List Bool) (tr : List Nat) (a
     have e := h1 h
     rw [← Nat.add_assoc, h3 (by rw [e]; exact h), e]
 
+/-! ### Agreement for a laid-out function -/
+
+theorem isPrefixOrEq_of_left {a b : List Nat} (h : a <+: b) : isPrefixOrEq a b = true := by
+  unfold isPrefixOrEq; rw [Bool.or_eq_true]; left; exact List.isPrefixOf_iff_prefix.mpr h
+theorem isPrefixOrEq_of_right {a b : List Nat} (h : b <+: a) : isPrefixOrEq a b = true := by
+  unfold isPrefixOrEq; rw [Bool.or_eq_true]; right; exact List.isPrefixOf_iff_prefix.mpr h
+
+/-- two traces of the jump program from the same configuration are comparable -/
+theorem jtraces_comparable (S : List Instr) (pc : Nat) (os : List Bool) (tr : List Nat) (a b : Nat) :
+    (runJump S a pc os tr).2 <+: (runJump S b pc os tr).2 ∨ (runJump S b pc os tr).2 <+: (runJump S a pc os tr).2 := by
+  rcases Nat.le_total a b with h | h
+  · obtain ⟨d, rfl⟩ := Nat.exists_eq_add_of_le h
+    exact Or.inl (jfuel_le S pc os tr a d).2
+  · obtain ⟨d, rfl⟩ := Nat.exists_eq_add_of_le h
+    exact Or.inr (jfuel_le S pc os tr b d).2
+
+/-- if the jump program ends in `(je, T)` for every fuel from `k` on, then at any fuel it has either
+ended that way or is out of fuel with a prefix of `T` -/
+theorem jend_or_prefix (S : List Instr) (pc : Nat) (os : List Bool) (tr : List Nat) (k : Nat) (je : JEnd) (T : List Nat)
+    (hk : ∀ m, runJump S (k + m) pc os tr = (je, T)) (fuel : Nat) :
+    runJump S fuel pc os tr = (je, T) ∨ ((runJump S fuel pc os tr).1 = .noFuel ∧ (runJump S fuel pc os tr).2 <+: T) := by
+  rcases Nat.le_total k fuel with h | h
+  · obtain ⟨d, rfl⟩ := Nat.exists_eq_add_of_le h
+    exact Or.inl (hk d)
+  · obtain ⟨d, hd⟩ := Nat.exists_eq_add_of_le h
+    obtain ⟨h1, h2⟩ := jfuel_le S pc os tr fuel d
+    have hkk : runJump S (fuel + d) pc os tr = (je, T) := by rw [← hd]; simpa using hk 0
+    by_cases hnf : (runJump S fuel pc os tr).1 = .noFuel
+    · right; rw [hkk] at h2; exact ⟨hnf, h2⟩
+    · left; rw [← h1 hnf]; exact hkk
+
+/-- **agreement** — for a stack that is the layout of a flow ending in a return, with pairwise
+distinct set labels and a well-formed jump program: the structured run and the jump program agree,
+for every outcome sequence and every fuel -/
+theorem lay_agree (S : List Instr) (flows : List Flow) (hl : Lay none 0 flows S .fall) (hn : (setLabels S).Nodup)
+    (hend : endsRet flows = true)
+    (hwf : ∀ fuel os, (runJump S fuel 0 os []).1 ≠ .badLabel ∧ (runJump S fuel 0 os []).1 ≠ .fellOff)
+    (outcomes : List Bool) (fuel : Nat) : agree flows S outcomes fuel = none := by
+  have hsim := sim S hn fuel none 0 flows S .fall hl [] [] S.length (by simp) rfl
+    (Pos.mk (fun _ _ _ h => by cases h) (fun _ _ h => by cases h)) (by simp [exitPos]) outcomes []
+  have hnn := endsRet_not_normal flows fuel outcomes [] hend
+  obtain ⟨hb, hf⟩ := hwf fuel outcomes
+  unfold agree
+  dsimp only
+  simp only [List.length_nil] at hsim
+  generalize runList fuel flows outcomes [] = s at hsim hnn
+  generalize hj : runJump S fuel 0 outcomes [] = j at hb hf
+  obtain ⟨je, jt⟩ := j
+  dsimp only at hb hf ⊢
+  have hbb : (je == JEnd.badLabel) = false := by cases je <;> simp at hb ⊢
+  have hff : (je == JEnd.fellOff) = false := by cases je <;> simp at hf ⊢
+  rw [hbb, hff]
+  simp only [Bool.false_eq_true, if_false]
+  unfold Out at hsim
+  cases hc : s.ctl with
+  | normal => exact absurd hc hnn
+  | brk => rw [hc] at hsim; obtain ⟨_, _, _, _, h, _⟩ := hsim; cases h
+  | cont => rw [hc] at hsim; obtain ⟨_, _, _, _, _, h, _⟩ := hsim; cases h
+  | returned =>
+    rw [hc] at hsim
+    obtain ⟨k, hk⟩ := hsim
+    rcases jend_or_prefix S 0 outcomes [] k .returned s.trace hk fuel with h | ⟨h1, h2⟩
+    · rw [hj] at h; injection h with h1 h2; subst h1; subst h2; simp
+    · rw [hj] at h1 h2; dsimp only at h1 h2; subst h1
+      simp [isPrefixOrEq_of_right h2]
+  | noOutcome =>
+    rw [hc] at hsim
+    obtain ⟨k, hk⟩ := hsim
+    rcases jend_or_prefix S 0 outcomes [] k .noOutcome s.trace hk fuel with h | ⟨h1, h2⟩
+    · rw [hj] at h; injection h with h1 h2; subst h1; subst h2; simp
+    · rw [hj] at h1 h2; dsimp only at h1 h2; subst h1
+      simp [isPrefixOrEq_of_right h2]
+  | noFuel =>
+    rw [hc] at hsim
+    obtain ⟨a, ha⟩ := hsim
+    have hcmp : isPrefixOrEq s.trace jt = true := by
+      rcases jtraces_comparable S 0 outcomes [] a fuel with h | h
+      · rw [hj] at h; exact isPrefixOrEq_of_left (ha.trans h)
+      · rw [hj] at h
+        rcases List.prefix_or_prefix_of_prefix ha h with h' | h'
+        · exact isPrefixOrEq_of_left h'
+        · exact isPrefixOrEq_of_right h'
+    cases je <;> simp [hcmp] at hb hf ⊢
+
 end SemVerif
